@@ -13,8 +13,11 @@ Dims == [kind  : {"gpt", "mbr"},
          lss   : {"512", "4096"},
          pss   : {"512", "4096"},
          rlen  : {"zero", "minus1", "exact", "plus1"},
-         chunk : {"whole", "one", "c513", "pssp1"}]
-Base == [kind |-> "gpt", start |-> "s2048", size |-> "z2048", lss |-> "512", pss |-> "512", rlen |-> "exact", chunk |-> "whole"]
+         chunk : {"whole", "one", "c513", "pssp1"},
+         \* what is streamed over what: a non-zero pattern, all zeroes, or a pattern whose odd physical
+         \* sectors are zero - always onto a partition that already holds other non-zero bytes
+         data  : {"pat", "zero", "holes"}]
+Base == [kind |-> "gpt", start |-> "s2048", size |-> "z2048", lss |-> "512", pss |-> "512", rlen |-> "exact", chunk |-> "whole", data |-> "pat"]
 Deviations(t) == Cardinality({f \in DOMAIN Base : t[f] # Base[f]})
 
 \* WritePartitionContents: stores the reader's bytes at the partition's own offset, touches
